@@ -1,4 +1,5 @@
 (* MV.C03.Properties — property C03 ("every actor incarnation sees a well-formed lifecycle") on the kernel model. *)
+From MV Require Import Kernel.Launch.
 From MV Require Import Lib.ListX Kernel.Model Kernel.Run Kernel.Lifecycle Kernel.Status.
 Open Scope Z_scope.
 
@@ -30,12 +31,21 @@ Print Assumptions C03_nothing_handled_after_terminated.
 
 (* First clause: "for each incarnation the first message handled is OnLaunch, preceded only by OnRestarted when the
    incarnation results from a restart". Until fix 'the fresh instance of a restart handles OnRestarted and OnLaunch
-   before anything that was already queued' this was FALSE of the model and of the code (tryRestarted enqueued
-   OnRestarted/OnLaunch behind system messages already queued, so a racing terminate or restart request or a
-   termination notice was the first thing the fresh instance saw; former theorem C03_first_is_launch_refuted, three
-   open findings). The restart now completes inside one step (start_instance). The universally quantified statement is
-   not proved yet: it is decided on every run by the monitor C03:first-not-launch and step equality with the model.
-   The former counter-example, now well-formed: incarnation 1 of actor 0 handles OnRestarted, OnLaunch, and only then
+   before anything that was already queued' this was FALSE of the model and of the code (former theorem
+   C03_first_is_launch_refuted, three open findings). Now proved (Kernel/Launch.v), for every role table and every run
+   from the freshly started system: whenever a step shows an incarnation (address t, instance i) of a non-system actor
+   handling anything other than OnLaunch or OnRestarted — a user message, OnTerminate, its own OnTerminated, a child's
+   or watched actor's OnTerminated, OnRestarting — that incarnation has handled its OnLaunch in an EARLIER step.
+   (That OnRestarted comes only as the very first message, directly followed by OnLaunch in the same step, is how
+   start_instance is built; the step-level statement of that is checked per run, monitor C03:first-not-launch.) *)
+Theorem C03_launch_first : forall roles ls s os l s' o t i tg sn sd,
+  krun roles kinit ls = Some (s, os) -> kstep roles s l = Some (s', o) ->
+  In (OH t i tg sn sd) o -> is_sys t = false -> tg <> TL -> tg <> TRD ->
+  exists sn' sd', In (OH t i TL sn' sd') (concat os).
+Proof. exact launch_first. Qed.
+Print Assumptions C03_launch_first.
+
+(* The former counter-example, now well-formed: incarnation 1 of actor 0 handles OnRestarted, OnLaunch, and only then
    the terminate request that had raced with the restart. *)
 Definition handled_by (a : ref) (inst : nat) (os : list (list obs)) : list trig :=
   flat_map (fun o => match o with OH a' i t _ _ => if (a' =? a) && Nat.eqb i inst then [t] else [] | _ => [] end) (concat os).
